@@ -547,6 +547,8 @@ impl Scenario for Fibers {
         // audit knobs: several operations on the same pool (continued use after an error), the builder
         let n_rounds = 1 + cfg.biased_zero(3, 1, 3) as usize;
         let use_builder = cfg.chance(1, 2);
+        // the queue capacity is a per-run knob: smaller than, equal to and larger than the operations' item counts
+        let queue_capacity = *cfg.pick(&[16usize, 1, 2, 3, 4, 1000]);
         let mut rounds: Vec<FiberRound> = vec![];
         for r in 0..n_rounds {
             let (mode, planned) = if r == 0 { (mode0, planned0) } else { (cfg.below(FIBER_MODES.len() as u64), cfg.below(10)) };
@@ -568,7 +570,7 @@ impl Scenario for Fibers {
             });
         }
         install_yields(cx.src.chan("sched"));
-        cx.ev(format!("fiber pool max_fibers={} max_workers={} builder={} operations={}", max_fibers, max_workers, use_builder, n_rounds));
+        cx.ev(format!("fiber pool max_fibers={} max_workers={} queue_capacity={} builder={} operations={}", max_fibers, max_workers, queue_capacity, use_builder, n_rounds));
         for (r, rd) in rounds.iter().enumerate() {
             cx.ev(format!("operation{} mode={} items={}", r, FIBER_MODES[rd.mode as usize], rd.vals.len()));
             for i in 0..rd.vals.len() {
@@ -580,9 +582,9 @@ impl Scenario for Fibers {
         let mut any_fail = false;
         let verdict: Option<(String, String)> = rt.block_on(async {
             let pool = if use_builder {
-                zipora::concurrency::fiber_pool::FiberPoolBuilder::new().max_fibers(max_fibers).initial_workers(1).max_workers(max_workers).queue_capacity(16).idle_timeout(Duration::from_secs(1)).build().expect("pool")
+                zipora::concurrency::fiber_pool::FiberPoolBuilder::new().max_fibers(max_fibers).initial_workers(1).max_workers(max_workers).queue_capacity(queue_capacity).idle_timeout(Duration::from_secs(1)).build().expect("pool")
             } else {
-                FiberPool::new(FiberPoolConfig { max_fibers, initial_workers: 1, max_workers, queue_capacity: 16, idle_timeout: Duration::from_secs(1) }).expect("pool")
+                FiberPool::new(FiberPoolConfig { max_fibers, initial_workers: 1, max_workers, queue_capacity, idle_timeout: Duration::from_secs(1) }).expect("pool")
             };
             let mut verdict = None;
             let mut aborted = false;
